@@ -8,6 +8,8 @@ R-C01-3  every *checked* emission site also satisfies the identity on its honest
          guard is active, because the integer self-check is skipped then), possibly using the dominating
          run-time check as a premise
 R-C01-4  backends store exactly the value they are given
+R-C01-5  guard discipline (shared instances of C08's rules): error suppression switched on by a false guard is
+         switched off again on every exit, so checks are never off without the user having asked for it
 """
 import ast
 
@@ -38,17 +40,23 @@ def base_env(fi):
     return env
 
 
-def site_results(fi, call, premises=()):
+def site_results(fi, call, premises=(), honest_premise=True):
+    """honest_premise=False: the site emits unconditionally and unguarded (add_constraint_unsafe called directly), so
+    the identity must hold on EVERY path and for either value of the active guard (LinComb.ONE is then the guard wire)."""
     v_, w_, y_ = call.args[:3]
-    paths = [p for p in paths_to(fi.node, call) if honest(p)]
+    paths = [p for p in paths_to(fi.node, call) if (honest(p) or not honest_premise)]
     out = []
     for path in paths:
         def assumptions(path=path):
-            v = Valuer(base_env(fi))
+            env = base_env(fi)
+            if honest_premise:
+                env["LinComb.ONE"] = P.const(1)
+            v = Valuer(env)
             t_g = ast.parse("is_guard()", mode="eval").body
             t_i = ast.parse("ignore_errors()", mode="eval").body
-            v.assume(t_g, True)
-            v.assume(t_i, False)
+            if honest_premise:
+                v.assume(t_g, True)
+                v.assume(t_i, False)
             for nm, tr in premises:
                 v.assume(ast.Name(id=nm, ctx=ast.Load()), tr)
             for t, pol in path.conds:
@@ -83,7 +91,7 @@ def emission_sites(repo):
                 f = norm(c.func)
                 short = f.split(".")[-1]
                 if short == "add_constraint_unsafe" and len(c.args) == 3:
-                    sites.append((fi, c, "unsafe"))
+                    sites.append((fi, c, "direct"))
                 elif short == "add_constraint" and len(c.args) >= 3 and not f.startswith("backend.") \
                         and "backend.add_constraint" not in f:
                     unchecked = any(kw.arg == "check" and norm(kw.value) == "False" for kw in c.keywords) or (
@@ -131,7 +139,7 @@ def check(repo, rep, tier):
     r2 = rep.rule("R-C01-2", "unchecked emission sites: v*w - y is an identity of the hints", floor=5)
     r3 = rep.rule("R-C01-3", "checked emission sites: identity on the honest path (needed under a true guard)", floor=5)
     for fi, call, kind in emission_sites(repo):
-        rule = r2 if kind == "unsafe" else r3
+        rule = r2 if kind in ("unsafe", "direct") else r3
         where = fi.loc(call)
         key_base = "%s/%s" % (fi.fq, norm(call)[:60])
         # the guard*dummy = 0 constraint of the guarded arm
@@ -139,7 +147,8 @@ def check(repo, rep, tier):
             rule.ok(where, fi.fq, norm(call), "guard*dummy = 0: holds when the guard is 0; when it is 1, dummy = v*w - y must be 0, "
                                               "which is the checked site's own identity (R-C01-3)")
             continue
-        res = site_results(fi, call, PREMISES.get(fi.fq, ()))
+        direct = kind == "direct" and fi.fq != RT + ":add_constraint"
+        res = site_results(fi, call, PREMISES.get(fi.fq, ()), honest_premise=not direct)
         if not res:
             rule.undecided(where, fi.fq, norm(call), "no honest path reaches this site")
             continue
@@ -167,7 +176,12 @@ def check(repo, rep, tier):
         elif und:
             rule.undecided(where, fi.fq, term, "; ".join("%s: %s" % (", ".join(d) or "-", u) for d, u in und[:2]))
         else:
-            rule.ok(where, fi.fq, term, ("uses: " + "; ".join(sorted(lemmas))) if lemmas else "polynomial identity")
+            rule.ok(where, fi.fq, term, (("uses: " + "; ".join(sorted(lemmas))) if lemmas else "polynomial identity") + (
+                "; holds on every path and for either guard value (emitted unguarded)" if direct else ""))
+    # ---------------- R-C01-5  (shared with C08)
+    r5 = rep.rule("R-C01-5", "the premise 'checks not switched off' is not silently falsified: guard state is restored exactly", floor=10)
+    from .c08 import guard_discipline
+    guard_discipline(repo, r5)
     # ---------------- R-C01-4
     r4 = rep.rule("R-C01-4", "backends record exactly the value they are given", floor=6)
     for mod, lists in (("pysnark.snarkjsbackend", ("privvals", "pubvals")), ("pysnark.zkinterface.backend", ("privvals", "pubvals"))):
